@@ -1,10 +1,12 @@
 import Autd3.Model.Wire
+import Autd3.Lemmas.WireSend
 /-!
 # C03 — a tuple datagram equals its parts sent in order; frames are well formed
 Theorems about `Wire.packOp` / `Wire.packOp2` (mirror of `OperationHandler::{pack_op, pack_op2}`).
 -/
 namespace Autd3.C03
 open Autd3 Autd3.Wire Autd3.Gen
+open Autd3.Fw (rd)
 
 /-- the message-id rule: for every previous id byte the new id is in `0..=0x7F` and differs from it -/
 theorem msgid_fresh : ∀ m : Fin 256,
@@ -54,5 +56,180 @@ theorem slot2_is_first_size (o1 o2 : Op) (n : Nat) (t : Tx) (o1' o2' : Op) (t' :
           right; exact ⟨hh.1, Or.inr ⟨_, _, _, heq, rfl, hfit⟩⟩
       · cases h
         right; exact ⟨hh.1, Or.inl hh.2⟩
+
+
+/-! ## (1) per-operation contract of `Operation::pack` — every datagram kind, every buffer, every offset
+
+Hypotheses: `o.Inv` (`sent ≤ total`, a `NullOp` is done: holds for `Op.ofDg d` and is preserved), the space
+`b.size - off` is even (622 and every first-slot size are even) and the announced `required` size fits. -/
+
+/-- `pack` returns an even size that fits, keeps the buffer size, never writes below `off` (slot 2 never
+overwrites slot 1), keeps the datagram and the invariant, never moves `sent` backwards, and makes progress
+(`done` or strictly more sent); a pending operation reports at least 2 bytes -/
+theorem pack_contract_all (o : Op) (n : Nat) (b : Array Nat) (off : Nat) (o' : Op) (b' : Array Nat) (sz : Nat)
+    (hinv : o.Inv) (heven : (b.size - off) % 2 = 0) (hreq : off + o.required n ≤ b.size) (hoff : off ≤ b.size)
+    (h : o.pack n b off = .ok (o', b', sz)) :
+    sz % 2 = 0 ∧ sz ≤ b.size - off ∧ b'.size = b.size ∧ (∀ i, i < off → rd b' i = rd b i) ∧
+    o'.dg = o.dg ∧ o'.Inv ∧ o.sent ≤ o'.sent ∧ (o'.done = true ∨ o.sent < o'.sent) ∧
+    (o.done = false → 2 ≤ sz) := by
+  obtain ⟨c, k⟩ := Wire.pack_contract hinv heven (by omega) h
+  exact ⟨c.even, c.le_avail, k.1, k.2, c.dg, c.inv, c.mono, c.progress, c.pos⟩
+
+/-- `required_is_upper_bound`: a single-frame operation is done after one `pack` and reports exactly the
+size `required_size` announced -/
+theorem required_is_upper_bound (o : Op) (n : Nat) (b : Array Nat) (off : Nat) (o' : Op) (b' : Array Nat) (sz : Nat)
+    (hinv : o.Inv) (heven : (b.size - off) % 2 = 0) (hreq : off + o.required n ≤ b.size)
+    (hsingle : o.multi = false) (hpend : o.done = false)
+    (h : o.pack n b off = .ok (o', b', sz)) : o'.done = true ∧ sz = o.required n := by
+  obtain ⟨c, _⟩ := Wire.pack_contract hinv heven (by omega) h
+  exact ⟨(c.single hsingle).1, (c.single hsingle).2 hpend⟩
+
+/-- the termination measure (0 when done, else 1 + units left) strictly decreases with every `pack` -/
+theorem pack_measure_decreases (o : Op) (n : Nat) (b : Array Nat) (off : Nat) (o' : Op) (b' : Array Nat) (sz : Nat)
+    (hinv : o.Inv) (heven : (b.size - off) % 2 = 0) (hreq : off + o.required n ≤ b.size) (hpend : o.done = false)
+    (h : o.pack n b off = .ok (o', b', sz)) : o'.mu < o.mu := by
+  obtain ⟨c, _⟩ := Wire.pack_contract hinv heven (by omega) h
+  exact c.mu hpend
+
+/-- a datagram that satisfies the SDK's static validity conditions is never rejected by `pack`, in any
+reachable state, at any offset -/
+theorem pack_accepts_valid (o : Op) (n : Nat) (b : Array Nat) (off : Nat) (hv : o.dg.Valid) (hinv : o.Inv) :
+    ∃ o' b' sz, o.pack n b off = .ok (o', b', sz) := by
+  obtain ⟨o', sz, h⟩ := next_ok o n (b.size - off) hv hinv
+  obtain ⟨b', hb⟩ := next_ok_pack h
+  exact ⟨o', b', sz, hb⟩
+
+/-- the state and size computed by `pack` do not depend on the buffer contents, only on the space available -/
+theorem pack_state_indep_of_contents (o : Op) (n : Nat) (b c : Array Nat) (off off' : Nat)
+    (hsz : b.size - off = c.size - off') : projPack (o.pack n b off) = projPack (o.pack n c off') := by
+  rw [pack_next, pack_next, hsz]
+
+/-- with 249 transducers every valid datagram's first frame fits the 622-byte payload -/
+theorem valid_fits_622 (d : Dg) (hv : d.Valid) : (Op.ofDg d).required 249 ≤ 622 := by
+  cases d <;> simp only [Op.required, Op.ofDg, DrvLayout.Clear_size,
+      DrvLayout.Sync_size, DrvLayout.ForceFan_size, DrvLayout.ReadsFPGAState_size, DrvLayout.CpuGPIOOut_size,
+      DrvLayout.EmulateGPIOIn_size, DrvLayout.DebugSetting_size, DrvLayout.PhaseCorr_size, DrvLayout.Pwe_size,
+      DrvLayout.SilencerFixedCompletionSteps_size, DrvLayout.SilencerFixedUpdateRate_size, DrvLayout.FirmInfo_size,
+      DrvLayout.SwapSegmentTWithTransition_size, DrvLayout.SwapSegmentT_size, DrvLayout.Gain_size,
+      DrvLayout.ModulationHead_size, DrvLayout.FociSTMHead_size, DrvLayout.GainSTMHead_size, Drv.PWE_BUF_SIZE,
+      if_true] <;> try omega
+  case fociStm nf _ _ _ _ _ _ =>
+    simp only [Dg.Valid, Drv.FOCI_STM_FOCI_NUM_MAX] at hv
+    omega
+
+/-! ## (2) `slot2_wellformed` -/
+
+/-- every frame produced by `pack_op2` from reachable operation states into an even-sized payload that can
+hold each operation alone: the payload keeps its size; if anything was packed the id is fresh (`≤ 0x7F`,
+different from the previous id byte); and the second-slot offset is 0 or else it is exactly the size `sz1`
+reported by the first `pack` of this frame, even, non-zero, the second operation was packed at that offset
+into the buffer left by the first, `sz1 + sz2` fits the payload, and the bytes of the first slot are intact -/
+theorem slot2_wellformed (o1 o2 : Op) (n : Nat) (t : Tx) (o1' o2' : Op) (t' : Tx)
+    (hi1 : o1.Inv) (hi2 : o2.Inv) (hS : t.payload.size % 2 = 0)
+    (hf1 : o1.done = false → o1.required n ≤ t.payload.size)
+    (hf2 : o2.done = false → o2.required n ≤ t.payload.size)
+    (h : packOp2 o1 o2 n t = .ok (o1', o2', t')) :
+    t'.payload.size = t.payload.size ∧ o1'.Inv ∧ o2'.Inv ∧
+    (¬(o1.done = true ∧ o2.done = true) →
+      (t'.msgId ≤ 0x7F ∧ (t.msgId < 256 → t'.msgId ≠ t.msgId)) ∧
+      (t'.slot2 = 0 ∨ ∃ b1 sz1 sz2, o1.pack n t.payload 0 = .ok (o1', b1, sz1) ∧
+        o2.pack n b1 sz1 = .ok (o2', t'.payload, sz2) ∧ t'.slot2 = sz1 ∧ sz1 % 2 = 0 ∧ 2 ≤ sz1 ∧
+        sz1 + sz2 ≤ t.payload.size ∧ (∀ i, i < sz1 → rd t'.payload i = rd b1 i))) := by
+  have w := packOp2_wf o1 o2 n t o1' o2' t' hi1 hi2 hS hf1 hf2 h
+  refine ⟨w.size, w.inv1, w.inv2, fun hnd => ⟨(w.msgid hnd).2, ?_⟩⟩
+  rcases w.slot2 hnd with h0 | ⟨b1, sz1, sz2, p1, p2, e, ev, pos, _, fit, _, k⟩
+  · exact Or.inl h0
+  · exact Or.inr ⟨b1, sz1, sz2, p1, p2, e, ev, pos, fit, k.2⟩
+
+/-- the same for the real device: 249 transducers, the 622-byte payload of a `TxMessage`, valid datagrams -/
+theorem slot2_wellformed_622 (o1 o2 : Op) (t : Tx) (o1' o2' : Op) (t' : Tx)
+    (hv1 : o1.dg.Valid) (hv2 : o2.dg.Valid) (hi1 : o1.Inv) (hi2 : o2.Inv) (hS : t.payload.size = 622)
+    (h : packOp2 o1 o2 249 t = .ok (o1', o2', t')) :
+    t'.payload.size = 622 ∧
+    (¬(o1.done = true ∧ o2.done = true) →
+      (t'.msgId ≤ 0x7F ∧ (t.msgId < 256 → t'.msgId ≠ t.msgId)) ∧
+      (t'.slot2 = 0 ∨ ∃ b1 sz1 sz2, o1.pack 249 t.payload 0 = .ok (o1', b1, sz1) ∧
+        o2.pack 249 b1 sz1 = .ok (o2', t'.payload, sz2) ∧ t'.slot2 = sz1 ∧ sz1 % 2 = 0 ∧ 2 ≤ sz1 ∧
+        sz1 + sz2 ≤ 622 ∧ (∀ i, i < sz1 → rd t'.payload i = rd b1 i))) := by
+  have f1 := Nat.le_trans (required_le_first o1 249) (valid_fits_622 o1.dg hv1)
+  have f2 := Nat.le_trans (required_le_first o2 249) (valid_fits_622 o2.dg hv2)
+  have := slot2_wellformed o1 o2 249 t o1' o2' t' hi1 hi2 (by rw [hS]) (fun _ => by rw [hS]; exact f1)
+    (fun _ => by rw [hS]; exact f2) h
+  rw [hS] at this
+  exact ⟨this.1, this.2.2.2⟩
+
+/-- every frame the sender loop transmits for a pair of datagrams is well formed in the sense of
+`slot2_wellformed` (`StepWF` relates frame `i` to the sender state it was packed from: the initial state for
+`i = 0`, the state after frame `i-1` otherwise) — including the frames sent before a rejection -/
+theorem send_frames_wellformed (A B : Dg) (n : Nat) (t : Tx) (hS : t.payload.size % 2 = 0)
+    (hfA : (Op.ofDg A).required n ≤ t.payload.size) (hfB : (Op.ofDg B).required n ≤ t.payload.size) :
+    let s : SendSt := (Op.ofDg A, Op.ofDg B, t)
+    ∀ (i : Nat) (h : i < (sendLoop n s).1.length),
+      StepWF ((s :: (sendLoop n s).1)[i]'(by simp; omega)).1 ((s :: (sendLoop n s).1)[i]'(by simp; omega)).2.1 n
+        ((s :: (sendLoop n s).1)[i]'(by simp; omega)).2.2
+        ((sendLoop n s).1[i]).1 ((sendLoop n s).1[i]).2.1 ((sendLoop n s).1[i]).2.2 := by
+  intro s
+  exact sendLoop_stepwf hS s ⟨ofDg_inv A, ofDg_inv B, rfl, hfA, hfB⟩
+
+/-! ## (3) termination of the pack loop and `frames_bounded` -/
+
+/-- the sender loop (defined by recursion on the remaining units, no fuel) for two valid datagrams is never
+rejected and never stuck, transmits at least one and at most `max 1 (μ A + μ B)` frames
+(`μ d = 1 + number of samples / patterns` for a multi-frame datagram, `1` for a single-frame one, `0` for
+`NullOp`), and ends with both operations done -/
+theorem send_terminates (A B : Dg) (n : Nat) (t : Tx) (hS : t.payload.size % 2 = 0) (hA : A.Valid) (hB : B.Valid)
+    (hfA : (Op.ofDg A).required n ≤ t.payload.size) (hfB : (Op.ofDg B).required n ≤ t.payload.size) :
+    let r := sendLoop n (Op.ofDg A, Op.ofDg B, t)
+    r.2 = none ∧ 1 ≤ r.1.length ∧ r.1.length ≤ max 1 ((Op.ofDg A).mu + (Op.ofDg B).mu) ∧
+    ∃ q, r.1.getLast? = some q ∧ q.1.done = true ∧ q.2.1.done = true := by
+  intro r
+  have hl := sendLoop_opLoop n (Op.ofDg A, Op.ofDg B, t)
+  obtain ⟨e1, e2, e3, q, e4, e5⟩ := opLoop_finishes n t.payload.size hS (Op.ofDg A, Op.ofDg B)
+    (good_ofDg hA hfA) (good_ofDg hB hfB)
+  simp only [frames2] at e2 e3
+  simp only at hl
+  rw [hl] at e1 e2 e3 e4
+  simp only [List.length_map, Option.map_eq_none_iff] at e1 e2 e3
+  refine ⟨e1, e2, e3, ?_⟩
+  simp only [List.getLast?_map, Option.map_eq_some_iff] at e4
+  obtain ⟨x, hx, hxq⟩ := e4
+  refine ⟨x, hx, ?_⟩
+  subst hxq
+  simpa [fin2] using e5
+
+/-- **frames_bounded**: the tuple `(A, B)` never needs more frames than `A` alone (sent with `NullOp`, as the
+SDK does for a single datagram) plus `B` alone — whatever the contents and message ids of the three
+transmit buffers, for every number of transducers and every even payload size in which each fits -/
+theorem frames_bounded (A B : Dg) (n : Nat) (t tA tB : Tx) (hS : t.payload.size % 2 = 0)
+    (hsA : tA.payload.size = t.payload.size) (hsB : tB.payload.size = t.payload.size)
+    (hA : A.Valid) (hB : B.Valid)
+    (hfA : (Op.ofDg A).required n ≤ t.payload.size) (hfB : (Op.ofDg B).required n ≤ t.payload.size) :
+    framesOf A B n t ≤ framesOf A .null n tA + framesOf .null B n tB := by
+  have h := frames2_bounded n t.payload.size hS (Op.ofDg A) (Op.ofDg B) (good_ofDg hA hfA) (good_ofDg hB hfB)
+  have l := sendLoop_opLoop n (Op.ofDg A, Op.ofDg B, t)
+  have lA := sendLoop_opLoop n (Op.ofDg A, Op.ofDg .null, tA)
+  have lB := sendLoop_opLoop n (Op.ofDg .null, Op.ofDg B, tB)
+  simp only [hsA, hsB] at l lA lB
+  simp only [frames2, nullOp, l, lA, lB, List.length_map] at h
+  exact h
+
+/-- the same for the real device -/
+theorem frames_bounded_622 (A B : Dg) (t tA tB : Tx) (hS : t.payload.size = 622)
+    (hsA : tA.payload.size = 622) (hsB : tB.payload.size = 622) (hA : A.Valid) (hB : B.Valid) :
+    framesOf A B 249 t ≤ framesOf A .null 249 tA + framesOf .null B 249 tB :=
+  frames_bounded A B 249 t tA tB (by rw [hS]) (by rw [hS, hsA]) (by rw [hS, hsB]) hA hB
+    (by rw [hS]; exact valid_fits_622 A hA) (by rw [hS]; exact valid_fits_622 B hB)
+
+/-! ### non-vacuity -/
+
+example : ({} : Tx).payload.size = 622 := by
+  simp [Drv.EC_OUTPUT_FRAME_SIZE, DrvLayout.Header_size]
+example : (Op.ofDg (.modulation 0 none 0xFFFF 10 (Array.replicate 40000 7))).Inv := ofDg_inv _
+example : (Dg.modulation 0 none 0xFFFF 10 (Array.replicate 40000 7)).Valid := by
+  simp [Dg.Valid, Drv.MOD_BUF_SIZE_MIN, Drv.MOD_BUF_SIZE_MAX]
+example : (Dg.gain 1 (some (255, 0)) (Array.replicate 249 0x80FF)).Valid := by
+  intro m v h; cases h; rfl
+example : (Dg.fociStm 8 0 none 0xFFFF 4000 340 (Array.replicate 800 5)).Valid := by
+  simp [Dg.Valid, Drv.FOCI_STM_FOCI_NUM_MAX, Drv.STM_BUF_SIZE_MIN, Drv.FOCI_STM_BUF_SIZE_MAX]
 
 end Autd3.C03
